@@ -1,6 +1,379 @@
-import ColoVerif.Proofs.Transp1dOptKkt
-import ColoVerif.Proofs.Transp1dMerge
-import ColoVerif.Proofs.Transp1dAssign
-import Mathlib.Tactic.Linarith
+import ColoVerif.Proofs.Transp1dOptDualB
+/-
+Dual certificate from the optimality conditions `Kkt` (C14, slack case), main part:
+with `be t := max 0 (max_k (al k - cs k t))` the source potentials `al` of part B are dominated,
+going right from a source `k`, on the sinks up to the one containing its end, and going left on
+the sinks from the one containing its start (Monge inside a run, `Kkt.s2`/`Kkt.s4` across a gap).
+Hence `be t = al k - cs k t` wherever source `k` overlaps sink `t` (`opt`), and a sink met by a
+gap between the source intervals has price `0` (`sat`).
+-/
 namespace ColoVerif.Transp1d
+
+/-! ### a run start / a run end is priced by its own sink -/
+
+theorem al_start_le {sv : Solver} {q : List Int} (kkt : Kkt sv q) (k : Nat)
+    (hk : k < sv.u.length) (hs : k = 0 ∨ q.getD (k - 1) 0 < q.getD k 0) (h0 : 0 < q.getD k 0)
+    (t : Nat) (ht : t ≤ sigL sv (lo sv q k)) : al sv q k - cs sv k t ≤ 0 := by
+  have h1 := al_le_u sv q k h0
+  rw [aU_start sv q k hs] at h1
+  rcases Nat.lt_or_eq_of_le ht with h2 | h2
+  · have := kkt.s2 k hk hs h0 t h2
+    unfold lo at h1; omega
+  · rw [← h2] at h1; omega
+
+theorem al_end_le {sv : Solver} {q : List Int} (kkt : Kkt sv q) (k : Nat)
+    (hk : k < sv.u.length) (he : k + 1 = sv.u.length ∨ q.getD k 0 < q.getD (k + 1) 0)
+    (h0 : hi sv q k < sv.D.getD sv.v.length 0)
+    (t : Nat) (ht : sigR sv (hi sv q k) ≤ t) (htm : t < sv.v.length) :
+    al sv q k - cs sv k t ≤ 0 := by
+  have h1 := al_le_v sv q k (VFin.of_end hk he h0)
+  rw [aV_end sv q k he] at h1
+  rcases Nat.lt_or_eq_of_le ht with h2 | h2
+  · have := kkt.s4 k hk he h0 t h2 htm
+    unfold hi at h1; omega
+  · rw [h2] at h1; omega
+
+/-! ### one step of domination -/
+
+theorem step_right {sv : Solver} {q : List Int} (dom : PosDom sv q) (kkt : Kkt sv q) (k : Nat)
+    (hk : k + 1 < sv.u.length) (t : Nat) (ht : t ≤ sigL sv (hi sv q k)) :
+    al sv q (k + 1) - cs sv (k + 1) t ≤ max 0 (al sv q k - cs sv k t) := by
+  have hD := dom.dinc
+  have g1 := dom.lo_nonneg k (by omega)
+  have g2 := dom.lo_lt_hi k (by omega)
+  have g3 := dom.hi_le_lo k hk
+  have g4 := dom.lo_lt_hi (k + 1) hk
+  have g5 := dom.hi_le (k + 1) hk
+  have g6 := dom.nn k (by omega)
+  by_cases hq : q.getD k 0 < q.getD (k + 1) 0
+  · have := sigL_mono hD (hi sv q k) (lo sv q (k + 1)) (by omega) g3 (by omega)
+    have := al_start_le kkt (k + 1) hk (Or.inr hq) (by omega) t (by omega)
+    omega
+  · have := dom.mono k hk
+    have hq' : q.getD k 0 = q.getD (k + 1) 0 := by omega
+    have e0 := lo_succ_eq sv q k hq'
+    have s1 := dual_sigL_spec hD (hi sv q k) (by omega) (by omega)
+    have s2 := dual_sigR_spec hD (hi sv q k) (by omega) (by omega)
+    have s3 := sigL_le_sigR hD (hi sv q k) (by omega) (by omega)
+    rcases al_cases sv q k (fin_or dom k (by omega)) with ⟨hu, e⟩ | ⟨hv, e⟩
+    · have a1 := al_le_u sv q (k + 1) (by omega)
+      have a2 := aU_step sv q k hq'
+      have := cs_monge sv dom.si k (k + 1) t (sigL sv (hi sv q k)) (by omega) hk ht s1.1
+      omega
+    · have a1 := al_le_v sv q (k + 1) (hv.succ hk hq')
+      have a2 := aV_step sv q k hk hq'
+      have := cs_monge sv dom.si k (k + 1) t (sigR sv (hi sv q k)) (by omega) hk (by omega) s2.1
+      omega
+
+theorem step_left {sv : Solver} {q : List Int} (dom : PosDom sv q) (kkt : Kkt sv q) (k : Nat)
+    (hk : k + 1 < sv.u.length) (t : Nat) (ht : sigR sv (lo sv q (k + 1)) ≤ t)
+    (htm : t < sv.v.length) :
+    al sv q k - cs sv k t ≤ max 0 (al sv q (k + 1) - cs sv (k + 1) t) := by
+  have hD := dom.dinc
+  have g1 := dom.lo_nonneg k (by omega)
+  have g2 := dom.lo_lt_hi k (by omega)
+  have g3 := dom.hi_le_lo k hk
+  have g4 := dom.lo_lt_hi (k + 1) hk
+  have g5 := dom.hi_le (k + 1) hk
+  have g6 := dom.nn k (by omega)
+  by_cases hq : q.getD k 0 < q.getD (k + 1) 0
+  · have := sigR_mono hD (hi sv q k) (lo sv q (k + 1)) (by omega) g3 (by omega)
+    have := al_end_le kkt k (by omega) (Or.inr hq) (by omega) t (by omega) htm
+    omega
+  · have := dom.mono k hk
+    have hq' : q.getD k 0 = q.getD (k + 1) 0 := by omega
+    have e0 := lo_succ_eq sv q k hq'
+    rw [e0] at ht
+    have s3 := sigL_le_sigR hD (hi sv q k) (by omega) (by omega)
+    rcases al_cases sv q (k + 1) (fin_or dom (k + 1) hk) with ⟨hu, e⟩ | ⟨hv, e⟩
+    · have a1 := al_le_u sv q k (by omega)
+      have a2 := aU_step sv q k hq'
+      have := cs_monge sv dom.si k (k + 1) (sigL sv (hi sv q k)) t (by omega) hk (by omega) htm
+      omega
+    · have a1 := al_le_v sv q k (hv.pred hq')
+      have a2 := aV_step sv q k hk hq'
+      have := cs_monge sv dom.si k (k + 1) (sigR sv (hi sv q k)) t (by omega) hk ht htm
+      omega
+
+/-! ### chains -/
+
+theorem chain_right {sv : Solver} {q : List Int} (dom : PosDom sv q) (kkt : Kkt sv q) (k : Nat)
+    (t : Nat) (ht : t ≤ sigL sv (hi sv q k)) :
+    ∀ k', k + 1 ≤ k' → k' < sv.u.length →
+      al sv q k' - cs sv k' t ≤ max 0 (al sv q k - cs sv k t) := by
+  intro k' hkk
+  induction k', hkk using Nat.le_induction with
+  | base => intro h; exact step_right dom kkt k h t ht
+  | succ k' hkk ih =>
+    intro h
+    have i1 := ih (by omega)
+    have hD := dom.dinc
+    have g1 := dom.lo_nonneg k (by omega)
+    have g2 := dom.lo_lt_hi k (by omega)
+    have g3 := dom.hi_mono k k' (by omega) (by omega)
+    have g4 := dom.hi_le k' (by omega)
+    have := sigL_mono hD (hi sv q k) (hi sv q k') (by omega) g3 g4
+    have := step_right dom kkt k' h t (by omega)
+    omega
+
+theorem chain_left {sv : Solver} {q : List Int} (dom : PosDom sv q) (kkt : Kkt sv q) (k' : Nat)
+    (t : Nat) (htm : t < sv.v.length) :
+    ∀ k, k' + 1 ≤ k → k < sv.u.length → sigR sv (lo sv q k) ≤ t →
+      al sv q k' - cs sv k' t ≤ max 0 (al sv q k - cs sv k t) := by
+  intro k hkk
+  induction k, hkk using Nat.le_induction with
+  | base => intro h ht; exact step_left dom kkt k' h t ht htm
+  | succ k hkk ih =>
+    intro h ht
+    have hD := dom.dinc
+    have g1 := dom.lo_nonneg k (by omega)
+    have g2 := dom.lo_mono k (k + 1) (by omega) h
+    have g3 := dom.lo_lt_hi (k + 1) h
+    have g4 := dom.hi_le (k + 1) h
+    have := sigR_mono hD (lo sv q k) (lo sv q (k + 1)) g1 g2 (by omega)
+    have i1 := ih (by omega) (by omega)
+    have := step_left dom kkt k h t ht htm
+    omega
+
+/-! ### an overlapped sink is affordable -/
+
+theorem al_ge_of_ov {sv : Solver} {q : List Int} (dom : PosDom sv q) (kkt : Kkt sv q) (k t : Nat)
+    (hk : k < sv.u.length) (ht : t < sv.v.length) (ho : 0 < ov sv q k t) :
+    cs sv k t ≤ al sv q k ∧ sigR sv (lo sv q k) ≤ t ∧ t ≤ sigL sv (hi sv q k) := by
+  have hD := dom.dinc
+  obtain ⟨o1, o2, -, -⟩ := (ov_pos_iff sv q k t).mp ho
+  have g1 := dom.lo_nonneg k hk
+  have g2 := dom.lo_lt_hi k hk
+  have g3 := dom.hi_le k hk
+  have r1 := sigR_le hD (lo sv q k) g1 (by omega) t o1
+  have r2 := le_sigL hD (hi sv q k) (by omega) g3 t (by omega) o2
+  refine ⟨?_, r1, r2⟩
+  rcases al_cases sv q k (fin_or dom k hk) with ⟨hu, e⟩ | ⟨hv, e⟩
+  · have g4 := dom.lo_pos k hk (Or.inr hu)
+    have l1 := sigL_lt hD (lo sv q k) g4 (by omega) (t + 1) (by omega)
+    have s1 := dual_sigL_spec hD (hi sv q k) (by omega) g3
+    have := cs_quasi sv dom.si k (sigL sv (lo sv q k)) t (sigL sv (hi sv q k)) (by omega) r2 s1.1
+    have := aU_ge_lo dom kkt k hk hu
+    have := aU_ge_hi dom kkt k hk hu
+    omega
+  · have g4 := hv.hi_lt dom
+    have l1 := le_sigR hD (hi sv q k) (by omega) g4 t (by omega) (by omega)
+    have s1 := dual_sigR_spec hD (hi sv q k) (by omega) g4
+    have := cs_quasi sv dom.si k (sigR sv (lo sv q k)) t (sigR sv (hi sv q k)) r1 l1 s1.1
+    have := aV_ge_lo dom kkt k hv
+    have := aV_ge_hi dom kkt k hk hv
+    omega
+
+/-! ### sources right / left of a gap cannot afford the sinks on the other side -/
+
+theorem right_zero {sv : Solver} {q : List Int} (dom : PosDom sv q) (kkt : Kkt sv q) (k : Nat)
+    (hk : k < sv.u.length) (hs : k = 0 ∨ q.getD (k - 1) 0 < q.getD k 0) (h0 : 0 < q.getD k 0)
+    (t : Nat) (ht : t ≤ sigL sv (lo sv q k)) (k' : Nat) (hkk : k ≤ k') (hk' : k' < sv.u.length) :
+    al sv q k' - cs sv k' t ≤ 0 := by
+  have b := al_start_le kkt k hk hs h0 t ht
+  rcases Nat.lt_or_eq_of_le hkk with h | h
+  · have hD := dom.dinc
+    have g1 := dom.lo_pos k hk (Or.inr h0)
+    have g2 := dom.lo_lt_hi k hk
+    have g3 := dom.hi_le k hk
+    have := sigL_mono hD (lo sv q k) (hi sv q k) g1 (by omega) g3
+    have := chain_right dom kkt k t (by omega) k' (by omega) hk'
+    omega
+  · subst h; exact b
+
+theorem left_zero {sv : Solver} {q : List Int} (dom : PosDom sv q) (kkt : Kkt sv q) (k : Nat)
+    (hk : k < sv.u.length) (he : k + 1 = sv.u.length ∨ q.getD k 0 < q.getD (k + 1) 0)
+    (h0 : hi sv q k < sv.D.getD sv.v.length 0)
+    (t : Nat) (ht : sigR sv (hi sv q k) ≤ t) (htm : t < sv.v.length) (k' : Nat) (hkk : k' ≤ k) :
+    al sv q k' - cs sv k' t ≤ 0 := by
+  have b := al_end_le kkt k hk he h0 t ht htm
+  rcases Nat.lt_or_eq_of_le hkk with h | h
+  · have hD := dom.dinc
+    have g1 := dom.lo_nonneg k hk
+    have g2 := dom.lo_lt_hi k hk
+    have := sigR_mono hD (lo sv q k) (hi sv q k) g1 (by omega) h0
+    have := chain_left dom kkt k' t htm k (by omega) hk (by omega)
+    omega
+  · subst h; exact b
+
+/-! ### the sink prices -/
+
+/-- `max 0 (max_{k < n} f k)` -/
+def mx (f : Nat → Int) : Nat → Int
+  | 0 => 0
+  | n + 1 => max (mx f n) (f n)
+
+theorem mx_nonneg (f : Nat → Int) (n : Nat) : 0 ≤ mx f n := by
+  induction n with
+  | zero => exact Int.le_refl _
+  | succ n ih => simp only [mx]; omega
+
+theorem le_mx (f : Nat → Int) (n k : Nat) (hk : k < n) : f k ≤ mx f n := by
+  induction n with
+  | zero => omega
+  | succ n ih =>
+    simp only [mx]
+    rcases Nat.lt_or_eq_of_le (Nat.le_of_lt_succ hk) with h | h
+    · have := ih h; omega
+    · subst h; omega
+
+theorem mx_le (f : Nat → Int) (n : Nat) (x : Int) (hx : 0 ≤ x) (h : ∀ k, k < n → f k ≤ x) :
+    mx f n ≤ x := by
+  induction n with
+  | zero => exact hx
+  | succ n ih =>
+    simp only [mx]
+    have := ih (fun k hk => h k (by omega))
+    have := h n (by omega)
+    omega
+
+/-- the sink prices -/
+noncomputable def beOf (sv : Solver) (q : List Int) (t : Nat) : Int :=
+  mx (fun k => al sv q k - cs sv k t) sv.u.length
+
+/-! ### a sink not met by any gap is full -/
+
+theorem fill_full {sv : Solver} {q : List Int} (dom : PosDom sv q) (j : Nat)
+    (hj : j < sv.v.length) (N : Nat) (hN : N + 1 = sv.u.length)
+    (G0 : lo sv q 0 ≤ sv.D.getD j 0)
+    (Gk : ∀ k, k + 1 < sv.u.length → hi sv q k = lo sv q (k + 1) ∨
+      lo sv q (k + 1) ≤ sv.D.getD j 0 ∨ sv.D.getD (j + 1) 0 ≤ hi sv q k)
+    (Gn : sv.D.getD (j + 1) 0 ≤ hi sv q N) :
+    fillP sv q j (N + 1) = sv.D.getD (j + 1) 0 - sv.D.getD j 0 := by
+  have hD := dom.dinc
+  have dj := hD.step j hj
+  have key : ∀ K, K + 1 ≤ sv.u.length →
+      fillP sv q j (K + 1) = min (max (hi sv q K) (sv.D.getD j 0)) (sv.D.getD (j + 1) 0)
+        - sv.D.getD j 0 := by
+    intro K
+    induction K with
+    | zero =>
+      intro h
+      have := dom.lo_lt_hi 0 (by omega)
+      simp only [fillP, ovP, loP_eq, hiP_eq]
+      omega
+    | succ K ih =>
+      intro h
+      have i1 := ih (by omega)
+      have := dom.lo_lt_hi (K + 1) (by omega)
+      have := dom.hi_le_lo K (by omega)
+      have := Gk K (by omega)
+      rw [fillP, i1]
+      simp only [ovP, loP_eq, hiP_eq]
+      omega
+  rw [key N (by omega)]
+  omega
+
+/-! ### the certificate -/
+
+theorem kkt_glob (sv : Solver) (q : List Int) (dom : PosDom sv q) (kkt : Kkt sv q) :
+    ∃ be : Nat → Int, GlobCert sv q be := by
+  have hD := dom.dinc
+  refine ⟨beOf sv q, ⟨fun j _ => mx_nonneg _ _, ?_, ?_⟩⟩
+  · -- sat
+    intro j hj hpos
+    have d0 : 0 ≤ sv.D.getD j 0 := by
+      have := hD.mono 0 j (by omega) (by omega); rw [hD.zero] at this; exact this
+    have d1 := hD.mono (j + 1) sv.v.length (by omega) (Nat.le_refl _)
+    have dj := hD.step j hj
+    -- if every source is too expensive the price is zero
+    have zero : (∀ k, k < sv.u.length → al sv q k - cs sv k j ≤ 0) → False := by
+      intro h
+      have := mx_le (fun k => al sv q k - cs sv k j) sv.u.length 0 (Int.le_refl _) h
+      unfold beOf at hpos; omega
+    have hn : 0 < sv.u.length := by
+      apply Nat.pos_of_ne_zero
+      intro e
+      exact zero (fun k hk => by omega)
+    obtain ⟨N, hN⟩ : ∃ N, N + 1 = sv.u.length := ⟨sv.u.length - 1, by omega⟩
+    have G0 : lo sv q 0 ≤ sv.D.getD j 0 := by
+      apply Int.not_lt.mp
+      intro h
+      have l0 : lo sv q 0 = q.getD 0 0 := by unfold lo; rw [dom.S_zero]; omega
+      have g2 := dom.lo_lt_hi 0 hn
+      have g3 := dom.hi_le 0 hn
+      have := le_sigL hD (lo sv q 0) (by omega) (by omega) j (by omega) h
+      exact zero (fun k hk =>
+        right_zero dom kkt 0 hn (Or.inl rfl) (by omega) j this k (by omega) hk)
+    have Gk : ∀ k, k + 1 < sv.u.length → hi sv q k = lo sv q (k + 1) ∨
+        lo sv q (k + 1) ≤ sv.D.getD j 0 ∨ sv.D.getD (j + 1) 0 ≤ hi sv q k := by
+      intro k hk
+      apply Classical.byContradiction
+      intro hc
+      have g1 := dom.lo_nonneg k (by omega)
+      have g2 := dom.lo_lt_hi k (by omega)
+      have g3 := dom.hi_le_lo k hk
+      have g4 := dom.lo_lt_hi (k + 1) hk
+      have g5 := dom.hi_le (k + 1) hk
+      have g6 := dom.nn k (by omega)
+      have hq : q.getD k 0 < q.getD (k + 1) 0 := by
+        have : hi sv q k < lo sv q (k + 1) := by omega
+        unfold lo hi at this; omega
+      have r := le_sigL hD (lo sv q (k + 1)) (by omega) (by omega) j (by omega) (by omega)
+      have l := sigR_le hD (hi sv q k) (by omega) (by omega) j (by omega)
+      apply zero
+      intro k' hk'
+      by_cases hkk : k' ≤ k
+      · exact left_zero dom kkt k (by omega) (Or.inr hq) (by omega) j l hj k' hkk
+      · exact right_zero dom kkt (k + 1) hk (Or.inr hq) (by omega) j r k' (by omega) hk'
+    have Gn : sv.D.getD (j + 1) 0 ≤ hi sv q N := by
+      apply Int.not_lt.mp
+      intro h
+      have g1 := dom.lo_nonneg N (by omega)
+      have g2 := dom.lo_lt_hi N (by omega)
+      have l := sigR_le hD (hi sv q N) (by omega) (by omega) j h
+      exact zero (fun k hk =>
+        left_zero dom kkt N (by omega) (Or.inl hN) (by omega) j l hj k (by omega))
+    have := fill_full dom j hj N hN G0 Gk Gn
+    rw [hN] at this
+    exact this
+  · -- opt
+    intro i j j' hi_ hj hj' ho
+    obtain ⟨c1, c2, c3⟩ := al_ge_of_ov dom kkt i j hi_ hj ho
+    have up : beOf sv q j ≤ al sv q i - cs sv i j := by
+      apply mx_le _ _ _ (by omega)
+      intro k hk
+      show al sv q k - cs sv k j ≤ al sv q i - cs sv i j
+      rcases Nat.lt_trichotomy k i with h | h | h
+      · have := chain_left dom kkt k j hj i (by omega) hi_ c2
+        omega
+      · subst h; exact Int.le_refl _
+      · have := chain_right dom kkt i j c3 k (by omega) hk
+        omega
+    have lo1 : al sv q i - cs sv i j ≤ beOf sv q j :=
+      le_mx (fun k => al sv q k - cs sv k j) sv.u.length i hi_
+    have lo2 : al sv q i - cs sv i j' ≤ beOf sv q j' :=
+      le_mx (fun k => al sv q k - cs sv k j') sv.u.length i hi_
+    omega
+
+/-- non-vacuity: one source of size 1 at the left wall, one sink of size 2 -/
+theorem kkt_example : PosDom (mkSolver [0] [0] [1] [2]) [0] ∧ Kkt (mkSolver [0] [0] [1] [2]) [0] := by
+  refine ⟨⟨⟨⟨rfl, rfl, rfl, rfl⟩, by decide, by decide, by decide, by decide, rfl, rfl⟩,
+    by decide, by decide, rfl, ?_, ?_, ?_, by decide⟩, ⟨?_, ?_, ?_, ?_⟩⟩
+  · intro i hi; simp [mkSolver] at hi
+  · intro i hi
+    have : i = 0 := by simp [mkSolver] at hi; omega
+    subst this; decide
+  · intro i hi
+    have : i = 0 := by simp [mkSolver] at hi; omega
+    subst this; decide
+  · intro a k h1 h2 _ _ h5
+    have hk : k = 0 := by simp [mkSolver] at h2; omega
+    have ha : a = 0 := by omega
+    subst hk ha; revert h5; decide
+  · intro a h2 _ h5
+    have ha : a = 0 := by simp [mkSolver] at h2; omega
+    subst ha; revert h5; decide
+  · intro k b h1 h2 _ _ _
+    have hb : b = 0 := by simp [mkSolver] at h2; omega
+    have hk : k = 0 := by omega
+    subst hk hb; decide
+  · intro b h2 _ _ t h3 h4
+    have hb : b = 0 := by simp [mkSolver] at h2; omega
+    subst hb
+    have : sigR (mkSolver [0] [0] [1] [2]) ((mkSolver [0] [0] [1] [2]).S.getD (0 + 1) 0
+        + ([0] : List Int).getD 0 0) = 0 := by decide
+    rw [this] at h3
+    simp [mkSolver] at h4; omega
+
 end ColoVerif.Transp1d
